@@ -1,12 +1,15 @@
 #!/bin/bash
-# Builds the harness once so that the Go build cache is warm (offline).
+# Builds the harness once per build mode so that the Go build cache is warm
+# (offline; everything comes from /repo, /verif and the module cache).
 set -e
 cd "$(dirname "$0")"
 export GOFLAGS=-mod=mod GOPROXY=off
 SCRATCH=$(mktemp -d /tmp/verif.XXXXXX)
 trap 'rm -rf "$SCRATCH"' EXIT
-for MODE in std; do
-  OVERLAY=$(python3 tools/mkoverlay.py "$SCRATCH/$MODE" $MODE)
-  ( cd harness && cp /repo/go.sum go.sum && go build -tags verif -overlay "$OVERLAY" -o "$SCRATCH/vcheck-$MODE" ./cmd/vcheck )
-done
+cp /repo/go.sum harness/go.sum
+OV=$(python3 tools/mkoverlay.py "$SCRATCH/std" std)
+( cd harness && go build -tags verif -overlay "$OV" -o "$SCRATCH/vcheck-std" ./cmd/vcheck )
+( cd harness && go build -race -tags verif -overlay "$OV" -o "$SCRATCH/vcheck-race" ./cmd/vcheck )
+OV=$(python3 tools/mkoverlay.py "$SCRATCH/sched" sched)
+( cd harness && go build -tags verif,vsched -overlay "$OV" -o "$SCRATCH/vcheck-sched" ./cmd/vcheck )
 echo setup ok
